@@ -41,30 +41,30 @@ def tables_for(pid):
         mods.append("DecProofs.TableFacts.Mechanisms")
     return mods, unverified
 
-def P(families, modules, quick=300000, thorough=12000000, tables=None, static=None, extra_corpus=None, assumptions=None):
+def P(families, modules, quick=1000000, thorough=20000000, tables=None, static=None, extra_corpus=None, assumptions=None):
     return {"families": families, "theorem_modules": modules, "quick_count": quick, "thorough_count": thorough,
             "table_modules": tables or [], "static_modules": static or [], "extra_corpus": extra_corpus or [],
             "assumptions": assumptions or []}
 
 PROPS = {
-    "C01": P(["C01"], ["DecProofs.Properties.C01"], quick=400000),
-    "C02": P(["C02"], ["DecProofs.Properties.C02"], quick=400000),
+    "C01": P(["C01", "SQRT"], ["DecProofs.Properties.C01", "DecProofs.Core.RoundInt", "DecProofs.Core.Digits", "DecProofs.Core.Finish", "DecProofs.Properties.C01Q"], quick=1200000),
+    "C02": P(["C02"], ["DecProofs.Properties.C02"], quick=1200000),
     "C03": P(["C03"], ["DecProofs.Properties.C03", "DecProofs.Core.Cmp", "DecProofs.Properties.C03Order"]),
-    "C04": P(["C04"], ["DecProofs.Properties.C04", "DecProofs.Core.DigitStr", "DecProofs.Properties.C04Grammar"], quick=400000),
+    "C04": P(["C04"], ["DecProofs.Properties.C04", "DecProofs.Core.DigitStr", "DecProofs.Properties.C04Grammar"], quick=1200000),
     "C05": P(["C05"], ["DecProofs.Properties.C05", "DecProofs.Core.DigitStr", "DecProofs.Properties.C05RoundTrip"]),
-    "C06": P(["C06"], ["DecProofs.Properties.C06"]),
+    "C06": P(["C06"], ["DecProofs.Properties.C06", "DecProofs.Core.RoundInt", "DecProofs.Core.RoundQ", "DecProofs.Properties.C06Q"]),
     "C07": P(["C07"], ["DecProofs.Properties.C07"]),
-    "C08": P(["C08"], ["DecProofs.Properties.C08"]),
-    "C09": P(["C09"], ["DecProofs.Properties.C09"]),
+    "C08": P(["C08"], ["DecProofs.Properties.C08", "DecProofs.Core.RoundInt", "DecProofs.Core.RoundQ", "DecProofs.Properties.C08Q"]),
+    "C09": P(["C09"], ["DecProofs.Properties.C09", "DecProofs.Core.RoundInt", "DecProofs.Core.RoundQ", "DecProofs.Properties.C09Q"]),
     "C10": P(["C10"], ["DecProofs.Properties.C10"]),
     "C11": P(["C11"], ["DecProofs.Properties.C11"]),
     "C12": P(["C12"], ["DecProofs.Properties.C12"]),
     "C13": P(["C13"], ["DecProofs.Properties.C13", "DecProofs.Core.Codec", "DecProofs.Properties.C13Codec"]),
-    "C14": P(["C14"], ["DecProofs.Properties.C14"], static=["DecProofs.Static.FlagAccess"]),
-    "C15": P(["C15"], ["DecProofs.Properties.C15"], quick=400000, static=["DecProofs.Static.Inventory"],
+    "C14": P(["C14"], ["DecProofs.Properties.C14", "DecProofs.Properties.JudgeSound"], static=["DecProofs.Static.FlagAccess"]),
+    "C15": P(["C15"], ["DecProofs.Properties.C15", "DecProofs.Properties.JudgeSound"], quick=1200000, static=["DecProofs.Static.Inventory"],
              extra_corpus=["C01", "C02", "C04"]),
     "C16": P(["C16"], ["DecProofs.Properties.C16", "DecProofs.Core.Cmp", "DecProofs.Properties.C16Order"]),
-    "C17": P(["C17"], ["DecProofs.Properties.C17"]),
+    "C17": P(["C17"], ["DecProofs.Properties.C17", "DecProofs.Core.Digits", "DecProofs.Properties.C17Adjacent"]),
     "C18": P(["C18"], ["DecProofs.Properties.C18", "DecProofs.Core.Cmp", "DecProofs.Properties.C18Order"]),
     "C19": P(["C19"], ["DecProofs.Properties.C19", "DecProofs.Core.Codec", "DecProofs.Properties.C19RoundTrip"]),
     "C20": P(["C20"], ["DecProofs.Properties.C20", "DecProofs.Core.Cmp", "DecProofs.Properties.C20Order"]),
